@@ -333,3 +333,23 @@ package verifier
 //@ ensures[C02.enforced-failure-rejects] result1 == nil && !isSkip(result.VerificationLevel) ==> resultsWFo(result) && noEnforcedFailure(result)
 //@ at call (*verifier).processSignature: assert[C01.process-args] arg1 == signature && arg2 == opts.SignatureMediaType
 //@ at call dynamic: assert[C01.blob-hash,C07.blob-hash] arg0 == digestOfHash(hashOfAlg(outcome.EnvelopeContent.SignerInfo.SignatureAlgorithm)) && arg0 != ""
+
+// ---- C12: every construction yields a verifier the entry points' preconditions accept ----
+
+//@ func (*verifier).setRevocation
+//@ props C12
+//@ requires v != nil
+//@ modifies v.revocationTimestampingValidator, v.revocationCodeSigningValidator, v.revocationClient
+//@ ensures[C12.revocation-set] result == nil ==> v.revocationTimestampingValidator != nil && (v.revocationCodeSigningValidator != nil || v.revocationClient != nil)
+
+//@ func NewVerifierWithOptions
+//@ props C12
+//@ ensures[C12.constructed-wf] result1 == nil ==> result != nil && fresh(result) && verifierWF(result) && ociDocOK(result.ociTrustPolicyDoc) && blobDocOK(result.blobTrustPolicyDoc) && (result.ociTrustPolicyDoc != nil || result.blobTrustPolicyDoc != nil)
+//@ ensures[C12.constructed-wf] result1 == nil ==> result.ociTrustPolicyDoc == verifierOptions.OCITrustPolicy && result.blobTrustPolicyDoc == verifierOptions.BlobTrustPolicy && result.pluginManager == verifierOptions.PluginManager
+//@ ensures result1 != nil ==> result == nil
+
+//@ func (*verifier).SkipVerify
+//@ props C12 C10
+//@ requires verifierWF(v) && ociDocOK(v.ociTrustPolicyDoc)
+//@ ensures[C12.skip-consistent] result2 == nil ==> result1 != nil && result == isSkip(result1)
+//@ ensures[C12.skip-consistent] result2 != nil ==> !result && result1 == nil
